@@ -80,7 +80,7 @@ class Setup(object):
         tr = task['transport']
         self.sock = None
         self.proc = None
-        kw = dict(timeout=DEFAULT, maxread=2000)
+        kw = dict(timeout=30, maxread=2000)      # the instance default is changed after construction, see below
         if tr.startswith('pty'):
             sp = E.pty_spawn(env, use_poll=(tr == 'pty-poll'), spawn_kw=dict(raw=True, echo=(task['entry'] == 'waitnoecho')), **kw)
             self.wfd = sp.hs_slave
@@ -108,6 +108,7 @@ class Setup(object):
             env.fds.add(a.fileno())
             sp = socket_pexpect.SocketSpawn(self.sock, **kw)
             self.wfd = None
+        sp.timeout = DEFAULT        # documented attribute: -1 must mean its value at call time
         self.sp = sp
         self.tr = tr
         self.env = env
